@@ -1,20 +1,28 @@
 #!/usr/bin/env bash
-# tools/sweep_seeded.sh [tier] -- run every seeded change under /verif/seeded against the check of its property.
-# Writes one line per change to /verif/seeded/SWEEP.txt: <id-k> rc=<rc> <signature or note>.
-# rc=1 means the check reported a violation (the change was caught); rc=0 means it was missed.
+# tools/sweep_seeded.sh [tier] [name...] -- run every seeded change under /verif/seeded (or the named ones)
+# against the check of its property. One line per change in /verif/seeded/SWEEP.txt:
+#   <id-k> rc=<rc> <part> <signature>
+# rc=1: the check reported a violation (the change was caught); rc=0: missed; rc=2: inconclusive / patch does not apply.
+# /repo's working tree is modified while this runs and restored after every change.
 set -u
-TIER="${1:-quick}"
+TIER="${1:-quick}"; shift || true
 OUT=/verif/seeded/SWEEP.txt
-: > "$OUT.tmp"
-for d in /verif/seeded/C*-*/; do
-  name=$(basename "$d"); id=${name%-*}
-  [ -f /verif/harness/vcheck/src/$(echo "$id" | tr A-Z a-z).rs ] || [ "$id" = C15 -a -d /verif/harness/vderive ] || { echo "$name rc=- no-check" >> "$OUT.tmp"; continue; }
-  out=$(LINES_SHOWN=8 /verif/tools/try_mutant.sh "$d/patch.diff" "$id" "$TIER" 2>&1)
-  rc=$(echo "$out" | sed -n 's/^mutant rc=//p')
-  sig=$(echo "$out" | sed -n 's/^failure: part=\([^ ]*\) signature=\(.*\)$/\1 \2/p' | head -1 | cut -c1-160)
-  [ -z "$rc" ] && rc="?" && sig=$(echo "$out" | tail -1 | cut -c1-160)
-  echo "$name rc=$rc $sig" >> "$OUT.tmp"
+names=("$@")
+if [ ${#names[@]} -eq 0 ]; then names=($(cd /verif/seeded && ls -d C*-* )); : > "$OUT.tmp"; else cp "$OUT" "$OUT.tmp" 2>/dev/null || : > "$OUT.tmp"; fi
+for name in "${names[@]}"; do
+  id=${name%-*}
+  if ! git -C /repo diff --quiet; then echo "/repo has uncommitted changes; refusing"; exit 2; fi
+  if ! git -C /repo apply "/verif/seeded/$name/patch.diff" 2>/dev/null; then
+    line="$name rc=2 patch-does-not-apply"
+  else
+    out=$(cd /verif && ./check "$id" "$TIER" 2>&1); rc=$?
+    git -C /repo checkout -- .
+    sig=$(echo "$out" | sed -n 's/^failure: part=\([^ ]*\) signature=\(.*\)$/\1 \2/p' | head -1 | cut -c1-200)
+    line="$name rc=$rc $sig"
+  fi
+  grep -v "^$name " "$OUT.tmp" > "$OUT.tmp2"; mv "$OUT.tmp2" "$OUT.tmp"
+  echo "$line" >> "$OUT.tmp"
+  echo "$line"
 done
-git -C /repo status --short | grep -q . && echo "WARNING: /repo not clean" >> "$OUT.tmp"
+sort -o "$OUT.tmp" "$OUT.tmp"
 mv "$OUT.tmp" "$OUT"
-cat "$OUT"
